@@ -52,6 +52,8 @@ def add_kind(selector, kind, name):
     return selector.add_discrete_param(name, [0.5, 1, 2])
   if kind == 'Si':
     return selector.add_discrete_param(name, [1, 2, 3])
+  if kind == 'Sn':
+    return selector.add_discrete_param(name, [-3, -1, 2])
   if kind == 'C':
     return selector.add_categorical_param(name, ['a', 'b'])
   if kind == 'B':
@@ -66,7 +68,7 @@ def value_of(kind, vs):
   if kind == 'B':
     return vs          # stored as the strings 'True' / 'False'
   h = int(vs)
-  if kind in ('I', 'Si'):
+  if kind in ('I', 'Si', 'Sn'):
     return h // 2 if h % 2 == 0 else h / 2.0
   return h / 2.0
 
@@ -122,6 +124,8 @@ def build_space_factory(tree):
       return vz.ParameterConfig.factory(name, feasible_values=[0.5, 1.0, 2.0], external_type=vz.ExternalType.FLOAT, **kw)
     if k == 'Si':
       return vz.ParameterConfig.factory(name, feasible_values=[1.0, 2.0, 3.0], external_type=vz.ExternalType.INTEGER, **kw)
+    if k == 'Sn':
+      return vz.ParameterConfig.factory(name, feasible_values=[-3.0, -1.0, 2.0], external_type=vz.ExternalType.INTEGER, **kw)
     if k == 'C':
       return vz.ParameterConfig.factory(name, feasible_values=['a', 'b'], **kw)
     if k == 'B':
